@@ -165,3 +165,7 @@ def run(tier: str) -> int:
         "no {% provide %} between a component tag and its {% fill %} tags (the property does not say what that means)",
     ]
     return chk.finish()
+
+
+def replay(doc) -> int:
+    return rc.replay(PROP, doc)
